@@ -138,6 +138,9 @@ pub struct Model {
     pub indices_unknown: bool,
     /// legacy storage cannot tell "" from NULL in nullable string columns
     pub legacy: bool,
+    /// the op's row-level effect is not modelled (e.g. stale append with another schema):
+    /// adopt the next observation without counting a disagreement
+    pub resync: bool,
 }
 
 impl Model {
@@ -168,6 +171,7 @@ impl Model {
             derived: true,
             indices_unknown: false,
             legacy: false,
+            resync: false,
         }
     }
     pub fn col(&self, name: &str) -> Option<usize> {
@@ -325,6 +329,7 @@ pub enum OpKind {
     CrashedAppend,
     Age,
     AutoCleanupConfig,
+    DropRecreate,
 }
 
 impl OpKind {
@@ -356,6 +361,7 @@ impl OpKind {
             OpKind::CrashedAppend => "crashed_append",
             OpKind::Age => "age",
             OpKind::AutoCleanupConfig => "auto_cleanup_config",
+            OpKind::DropRecreate => "drop_and_recreate",
         }
     }
 }
@@ -579,6 +585,9 @@ pub struct HistCfg {
     pub auto_cleanup_default: bool,
     pub n_tables: usize,
     pub allow_refs: bool,
+    /// run cleanup only on tables that have no branches / clones (cross-reference effects of
+    /// cleanup are C09's subject)
+    pub cleanup_isolated_only: bool,
 }
 
 impl HistCfg {
@@ -595,6 +604,7 @@ impl HistCfg {
             auto_cleanup_default: rng.bool(),
             n_tables: 1,
             allow_refs: true,
+            cleanup_isolated_only: true,
         }
     }
     pub fn describe(&self) -> String {
@@ -627,6 +637,8 @@ pub struct Hist {
     pub snapshots_taken: u64,
     /// case index (for evidence only)
     pub case: u64,
+    /// pick the lineage an op works on uniformly (default: main three times as likely)
+    pub uniform_locs: bool,
 }
 
 pub fn panic_msg(p: &Box<dyn std::any::Any + Send>) -> String {
@@ -671,6 +683,7 @@ impl Hist {
             next_actor: 10,
             snapshots_taken: 0,
             case: 0,
+            uniform_locs: false,
         }
     }
 
@@ -833,7 +846,7 @@ impl Hist {
         // main lineages twice as likely
         let mut w: Vec<(u32, Loc)> = locs
             .into_iter()
-            .map(|l| (if l.branch.is_none() { 3 } else { 2 }, l))
+            .map(|l| (if l.branch.is_none() && !self.uniform_locs { 3 } else { 2 }, l))
             .collect();
         w.sort_by(|a, b| a.1.cmp(&b.1));
         Some(self.rng.pick_weighted(&w).clone())
@@ -1027,7 +1040,7 @@ impl Hist {
             // model vs latest
             if let Some(s) = lin.snaps.get(&latest) {
                 if let Some(d) = lin.model.disagreement(s) {
-                    if !lin.model.derived || rec.outcome.is_ok() {
+                    if !lin.model.resync {
                         self.model_disagreements.push(format!(
                             "step {} ({} on {:?}, {}): {} latest v{}: {}",
                             rec.idx,
@@ -1093,10 +1106,16 @@ impl Hist {
             OpKind::BranchCreate => self.op_branch_create(&loc, desc).await,
             OpKind::BranchDelete => self.op_branch_delete(&loc, desc).await,
             OpKind::ShallowClone => self.op_clone(&loc, desc).await,
-            OpKind::Cleanup => self.op_cleanup(&loc, desc, None).await,
+            OpKind::Cleanup => {
+                if self.cfg.cleanup_isolated_only && !self.is_isolated(&loc) {
+                    return (Outcome::Skipped, Extra::None);
+                }
+                self.op_cleanup(&loc, desc, None).await
+            }
             OpKind::StaleWrite => self.op_stale_write(&loc, desc).await,
             OpKind::ConcurrentDeletes => self.op_concurrent_deletes(&loc, desc).await,
             OpKind::CrashedAppend => self.op_crashed_append(&loc, desc).await,
+            OpKind::DropRecreate => self.op_drop_recreate(&loc, desc).await,
             OpKind::Age => unreachable!(),
         }
     }
@@ -1316,7 +1335,7 @@ impl Hist {
             max_rows_per_group: *self.rng.pick(&[4usize, 1024]),
             materialize_deletions: self.rng.chance(3, 4),
             materialize_deletions_threshold: *self.rng.pick(&[0.0f32, 0.1, 0.5]),
-            defer_index_remap: self.rng.chance(1, 5),
+            defer_index_remap: self.rng.chance(1, 12),
             batch_size: *self.rng.pick(&[None, Some(7usize)]),
             ..Default::default()
         }
@@ -1721,6 +1740,37 @@ impl Hist {
         )
     }
 
+    /// no other lineage shares files with this one (no branches of its table, not a clone, not cloned)
+    pub fn is_isolated(&self, loc: &Loc) -> bool {
+        self.locs_of_table(&loc.table).len() == 1
+            && self.lin[loc].parent.is_none()
+            && !self.lin.values().any(|l| l.parent.as_ref().map(|(p, _)| p.table == loc.table).unwrap_or(false))
+    }
+
+    /// Re-open (loc, v) and compare with the retained snapshot.
+    /// Ok(None) = identical; Ok(Some((class, detail))) = differs; Err = cannot be opened / read.
+    pub async fn recheck_version(&self, loc: &Loc, v: u64, fresh: bool) -> Result<Option<(String, Value)>, String> {
+        let lin = self.lin.get(loc).ok_or("lineage gone")?;
+        let old = lin.snaps.get(&v).ok_or("no snapshot")?;
+        let raw = self.env.raw();
+        let fut = async {
+            let ds = if fresh {
+                self.open_at(loc, Some(v), true).await.map_err(|e| format!("open: {e}"))?
+            } else {
+                lin.head
+                    .checkout_version((loc.branch.clone(), Some(v)))
+                    .await
+                    .map_err(|e| format!("checkout: {e}"))?
+            };
+            if ds.manifest().version != v {
+                return Err(format!("asked for version {v}, got {}", ds.manifest().version));
+            }
+            take_snapshot(&ds, &raw).await
+        };
+        let new = crate::walker::guard(fut).await?;
+        Ok(crate::snap::diff(old, &new))
+    }
+
     pub fn tagged_versions(&self, table: &str) -> BTreeSet<u64> {
         self.tags.iter().filter(|((t, _), _)| t == table).map(|(_, (_, v))| *v).collect()
     }
@@ -1883,7 +1933,7 @@ impl Hist {
                     lin.model.rows.insert(*id, r);
                 }
             } else {
-                lin.model.derived = true;
+                lin.model.resync = true;
             }
             lin.head = old;
         } else {
@@ -1955,6 +2005,33 @@ impl Hist {
                 }
             }
         }
+    }
+
+    /// Delete every object of an isolated table and create a new table at the same URI through the
+    /// same Session.
+    async fn op_drop_recreate(&mut self, loc: &Loc, desc: &mut Value) -> (Outcome, Extra) {
+        let Some(world) = self.env.world().cloned() else {
+            return (Outcome::Skipped, Extra::None);
+        };
+        if loc.branch.is_some() || !self.is_isolated(loc) {
+            return (Outcome::Skipped, Extra::None);
+        }
+        let root = format!("{}/", crate::walker::uri_to_path(&loc.table));
+        let mut n = 0;
+        for p in world.list_paths().await {
+            if p.starts_with(&root) {
+                let _ = world.backing.delete(&object_store::path::Path::from(p.as_str())).await;
+                n += 1;
+            }
+        }
+        self.lin.remove(loc);
+        let table = loc.table.clone();
+        self.tags.retain(|(t, _), _| *t != table);
+        let rec = Box::pin(self.create_table(&table)).await;
+        // create_table pushed its own step record; fold it into this one
+        self.steps.pop();
+        *desc = json!({"objects_deleted": n, "recreate": rec.desc});
+        (rec.outcome, Extra::None)
     }
 
     async fn op_crashed_append(&mut self, loc: &Loc, desc: &mut Value) -> (Outcome, Extra) {
@@ -2041,7 +2118,7 @@ impl Hist {
                 if report.counter(&k) == 1 {
                     report.set(
                         &format!("{k}.first"),
-                        json!({"seed": report.seed, "case": self.case, "step": st.idx, "config": self.cfg.describe(), "msg": m, "ops": self.ops_json(20)}),
+                        json!({"seed": report.seed, "case": self.case, "step": st.idx, "config": self.cfg.describe(), "msg": m.chars().take(240).collect::<String>()}),
                     );
                 }
             }
@@ -2065,6 +2142,13 @@ where
     F: for<'a> Fn(u64, &'a Report) -> CaseFut<'a> + Sync,
 {
     let next = std::sync::atomic::AtomicU64::new(0);
+    // the lead caps worker threads on the shared machine through VERIF_THREADS
+    let threads = std::env::var("VERIF_THREADS")
+        .ok()
+        .and_then(|v| v.parse::<usize>().ok())
+        .filter(|n| *n >= 1)
+        .unwrap_or(threads);
+    report.set("worker_threads", json!(threads));
     std::thread::scope(|s| {
         for _ in 0..threads {
             s.spawn(|| {
